@@ -40,6 +40,7 @@ import (
 	"sort"
 	"strings"
 	"sync"
+	"sync/atomic"
 	"time"
 
 	"github.com/notaryproject/notation-go/dir"
@@ -433,7 +434,42 @@ type Case struct {
 	SameType int     `json:"siblings_same_type"`
 	Strays   int     `json:"strays"`
 	Reuse    bool    `json:"reuse"` // load once with other file contents on the same store value first
+	// CtxPolls > 0: the call gets a context that reports "deadline exceeded" from its CtxPolls-th
+	// poll (Err or Done) on - it ends while the store is being read. Failing is then legal; a
+	// success must still be the complete set
+	CtxPolls int `json:"ctxPolls,omitempty"`
 }
+
+// pollCtx is a context whose deadline passes after a number of polls.
+type pollCtx struct {
+	context.Context
+	left   *int32
+	closed chan struct{}
+}
+
+func newPollCtx(polls int) *pollCtx {
+	n := int32(polls)
+	c := &pollCtx{Context: context.Background(), left: &n, closed: make(chan struct{})}
+	close(c.closed)
+	return c
+}
+
+func (p *pollCtx) expired() bool { return atomic.AddInt32(p.left, -1) <= 0 }
+func (p *pollCtx) over() bool    { return atomic.LoadInt32(p.left) <= 0 }
+func (p *pollCtx) Err() error {
+	if p.expired() {
+		return context.DeadlineExceeded
+	}
+	return nil
+}
+func (p *pollCtx) Done() <-chan struct{} {
+	if p.expired() {
+		return p.closed
+	}
+	return nil
+}
+func (p *pollCtx) Deadline() (time.Time, bool) { return time.Now().Add(time.Millisecond), true }
+
 
 func validType(t string) bool { return t == "ca" || t == "signingAuthority" || t == "tsa" }
 
@@ -597,12 +633,16 @@ func call(base, typ, name string) (certs []*x509.Certificate, err error, panicke
 }
 
 func callOn(ts truststore.X509TrustStore, typ, name string) (certs []*x509.Certificate, err error, panicked any) {
+	return callCtx(context.Background(), ts, typ, name)
+}
+
+func callCtx(ctx context.Context, ts truststore.X509TrustStore, typ, name string) (certs []*x509.Certificate, err error, panicked any) {
 	defer func() {
 		if r := recover(); r != nil {
 			panicked = r
 		}
 	}()
-	certs, err = ts.GetCertificates(context.Background(), truststore.Type(typ), name)
+	certs, err = ts.GetCertificates(ctx, truststore.Type(typ), name)
 	return
 }
 
@@ -630,6 +670,12 @@ func check(c *Case, v verdict) (key, msg string, succeeded bool) {
 	defer os.RemoveAll(base)
 	var certs []*x509.Certificate
 	var pan any
+	var ctx context.Context = context.Background()
+	var pc *pollCtx
+	if c.CtxPolls > 0 {
+		pc = newPollCtx(c.CtxPolls)
+		ctx = pc
+	}
 	if c.Reuse {
 		// history on ONE store value: first every file holds a (valid) decoy root, the store is
 		// loaded, then the files are overwritten in place with the case's real content (same
@@ -656,12 +702,12 @@ func check(c *Case, v verdict) (key, msg string, succeeded bool) {
 				}
 			}
 		}
-		certs, err, pan = callOn(ts, c.Type, c.Name)
+		certs, err, pan = callCtx(ctx, ts, c.Type, c.Name)
 	} else {
 		if err := materialize(base, c.Nodes); err != nil {
 			return "harness:materialize", err.Error(), false
 		}
-		certs, err, pan = call(base, c.Type, c.Name)
+		certs, err, pan = callCtx(ctx, truststore.NewX509TrustStore(dir.NewSysFS(base)), c.Type, c.Name)
 	}
 	if pan != nil {
 		return "C13:panic", fmt.Sprintf("GetCertificates panicked: %v", pan), false
@@ -678,6 +724,9 @@ func check(c *Case, v verdict) (key, msg string, succeeded bool) {
 	if err != nil {
 		if len(certs) != 0 {
 			return "C13:partial-result-with-error", fmt.Sprintf("error %q together with %d certificates %v", err, len(certs), idsOf(p, got)), false
+		}
+		if pc != nil && pc.over() {
+			return "", "", false // the context ended during the call: failing (with whatever error) is legal
 		}
 		if v.Expect == "succeed" {
 			return "C13:rejected-valid-store:type=" + c.Type, fmt.Sprintf("model: store is valid (%d files, certificates %v), GetCertificates failed: %v", len(v.Entries), idsOf(p, v.Want), err), false
@@ -758,7 +807,7 @@ func (c *Case) view() any {
 }
 
 func (c *Case) fingerprint() uint64 {
-	parts := []any{c.Type, c.Name, c.Reuse}
+	parts := []any{c.Type, c.Name, c.Reuse, c.CtxPolls}
 	for _, n := range c.Nodes {
 		parts = append(parts, n.Path, n.Kind, n.What, n.Var, strings.Join(n.Certs, ","), n.Target)
 	}
@@ -779,6 +828,12 @@ func classesOf(c *Case, v verdict, succeeded bool) ([]string, bool) {
 		cl[0] = "ok"
 	}
 	cl = append(cl, "model="+v.Expect)
+	if c.CtxPolls > 0 {
+		cl = append(cl, "context-ends-during-load")
+		if v.Expect == "succeed" && len(v.Entries) >= 2 {
+			cl = append(cl, "context-ends-during-load-of-several-files")
+		}
+	}
 	if c.Reuse {
 		cl = append(cl, "reused-store-value")
 	}
